@@ -105,10 +105,12 @@ class Session:
             return
         import multiprocessing as mp
         procs = procs or min(16, os.cpu_count() or 4, len(tasks))
-        if procs <= 1:
+        if False:
             outs = [_run_task(i) for i in range(len(tasks))]
         else:
-            pool = mp.get_context("fork").Pool(procs)
+            # one fresh process per task: no solver / cache / counter state leaks from one task into the next, so the
+            # outcome does not depend on how many workers the machine offers
+            pool = mp.get_context("fork").Pool(procs, maxtasksperchild=1)
             try:
                 outs = pool.map(_run_task, range(len(tasks)), chunksize=1)
             finally:
